@@ -422,6 +422,7 @@ func init() {
 		Level: "exploration",
 		Rule: "case = payload shape {empty, one line, no trailing newline, only newlines, comments/blanks, lines the statistics parser rejects (incl. binary), CRLF/unicode, generated, one line of 256 KiB-1, a newline exactly on the 64 KiB block boundary, 1 MiB, 8 MiB} x {identity, gzip} x Prometheus side {instrumented ResponseWriter with short writes of 1/7/4096 bytes, real net/http hop} x {assigned, not assigned to this shard} x chunking {every 2-way split point of the wire bytes + byte-by-byte, seed-determined random read sizes 1 B..128 KiB} x three content types; " +
 			"plus 12 cases in which 8 targets with different payloads/encodings are scraped concurrently through one proxy over a real HTTP hop, three rounds each, plus four rendezvous pairs of gzip scrapes whose harness-owned ResponseWriters hold both scrapes between the request to the target and the streaming of the body; oracle = byte equality of what Prometheus received with the target's body after decompression, status 200, same Content-Type; runs from the -race binary (the parser calls back concurrently); " +
+			"plus, in each of those 12 cases, two scrapes during which the administrative stop is lifted / set while the real request is held in the harness transport: a complete 200 response must carry the target's bytes; " +
 			"non-trivial = every case; distinct = (shape, encoding, mode, assigned, short-write size, chunking)",
 		Assumptions:   []string{"targets are in-memory http.RoundTrippers installed in JobInfo.Cli; gzip bodies are produced with compress/gzip at default level"},
 		NumCases:      func(tier string) int { return len(c12Cases(tier)) + c12ParallelCases },
